@@ -1430,6 +1430,13 @@ theorem ttlinv_workerPut {s : State} {cmd : Cmd} {id hash : Nat} {w : Int} {k v 
       have hidp : id ∉ pendingIds s := hidP
       dsimp only at h
       split at h
+      · -- the worker panicked in `is_space_available_for`: it dies with the evictions made so far
+        simp only [Except.ok.injEq, Prod.mk.injEq] at h
+        obtain ⟨rfl, _⟩ := h
+        refine t1.frame (frame_of_ple rfl rfl rfl rfl rfl ?_)
+        simp only [pendingCmds, Exec.kill, f7, List.map_nil, List.nil_append]
+        exact PLe.right _ _
+      split at h
       · rename_i hacc
         split at h
         · simp only [Except.ok.injEq, Prod.mk.injEq] at h
@@ -1951,6 +1958,12 @@ theorem workerPut_shape {s : State} {id hash : Nat} {w : Int} {k v : Nat} {ttl :
       have hple : PLe (pendingCmds (r.evicted.foldl applyEvict { s with adm := r.adm })) (pendingCmds s) := by
         simp only [pendingCmds, f6, f7]; exact PLe.refl _
       dsimp only at h
+      split at h
+      · simp only [Except.ok.injEq, Prod.mk.injEq] at h
+        obtain ⟨rfl, _⟩ := h
+        refine ⟨f3, ?_, Or.inr ⟨hk, r.evicted.map (·.2.1), Or.inl (by simp only [Exec.kill, f1])⟩⟩
+        simp only [pendingCmds, Exec.kill, f7, List.map_nil, List.nil_append]
+        exact PLe.right _ _
       split at h
       · split at h
         · simp only [Except.ok.injEq, Prod.mk.injEq] at h
